@@ -244,6 +244,9 @@ def build_session(rng, decl, tier, wdir, name):
     return lines, tags
 
 
+SLAB_DEGENERATE = json.load(open(os.path.join(os.path.dirname(os.path.abspath(__file__)), "c13_slab_degenerate.json")))
+
+
 def degenerate_parameter_worlds():
     P, SEG = prop_C12.POLY, prop_C12.SEG
     cat = []
@@ -277,6 +280,9 @@ def degenerate_parameter_worlds():
         cat.append(("ridge-zero-length-segment:%s:mass-conserving" % nm,
                     slab(**{"temperature models": [{"model": "mass conserving", "spreading velocity": 0.05, "subducting velocity": 0.05, "ridge coordinates": ridge, "density": 3300, "thermal conductivity": 3.3, "coupling depth": 80e3,
                                                     "taper distance": 100e3, "min distance slab top": -100e3, "max distance slab top": 100e3, "reference model name": "half space model"}]})))
+    # slab temperature models: the unguarded divisors found by the division audit of MassConserving.get / SlabPlateModel.get (worker MT, Properties/C13Slab.lean), worlds and points as replayed
+    for nm, w in SLAB_DEGENERATE["worlds"].items():
+        cat.append(("slab-model:" + nm.replace("_", "-"), w))
     cat.append(("plume-zero-axis", plume(**{"semi-major axis": [0, 0]})))
     cat.append(("plume-eccentricity-one", plume(**{"eccentricity": [1, 1]})))
     cat.append(("plume-head-zero-height", plume(**{"min depth": 100e3})))
@@ -451,7 +457,8 @@ def oracle(seed, tier):
     for name, w in degenerate_parameter_worlds():
         path = os.path.join(wdir, "p_%s.wb" % name)
         json.dump(w, open(path, "w"))
-        g = ["world w %s 3" % path] + [q3("w", [x, y, 1000e3 - d], d, PARAM_PROPS) for (x, y, d) in PARAM_PTS]
+        pts_ = [tuple(p) for p in SLAB_DEGENERATE["points"]] if name.startswith("slab-model:") else PARAM_PTS
+        g = ["world w %s 3" % path] + [q3("w", [x, y, 1000e3 - d], d, PARAM_PROPS) for (x, y, d) in pts_]
         if "cross section" in w:
             g += [q2("w", [x, 1000e3 - d], d, PARAM_PROPS) for (x, y, d) in PARAM_PTS[:4]]
         if w.get("coordinate system", {}).get("model") == "spherical":
